@@ -23,6 +23,8 @@ struct Case {
     bvs: Vec<(ExprRef, BitVecValue)>,
     arrs: Vec<ArrEnv>,
     cuts: Vec<(ExprRef, BitVecValue)>,
+    /// values supplied for inner ARRAY-typed expressions that are not symbols (store / ite / constant array nodes)
+    acuts: Vec<ArrEnv>,
     provider: u64,
     /// define every symbol with a scratch value first, then update it to the real one (SymbolValueStore::update*)
     updates: bool,
@@ -127,9 +129,24 @@ fn gen_case(rng: &mut Rng, stats: &mut Stats, args: &Args) -> Case {
             stats.inc("cut_cases");
         }
     }
-    let provider = if has_array_sym { 0 } else { rng.below(3) };
+    // optional cut on an inner ARRAY-typed node that is not a symbol (only SymbolValueStore can carry array values)
+    let mut acuts = vec![];
+    if nodes.len() > 1 && rng.chance(1, 5) {
+        let inner: Vec<ExprRef> = nodes
+            .iter()
+            .copied()
+            .filter(|n| *n != root && !ctx[*n].is_symbol() && n.get_array_type(&ctx).is_some())
+            .collect();
+        if !inner.is_empty() {
+            let n = *rng.pick(&inner);
+            let t = n.get_array_type(&ctx).unwrap();
+            acuts.push(random_array(rng, n, t.index_width, t.data_width));
+            stats.inc("array_cut_cases");
+        }
+    }
+    let provider = if has_array_sym || !acuts.is_empty() { 0 } else { rng.below(3) };
     let updates = rng.chance(1, 2);
-    Case { ctx, root, bvs, arrs, cuts, provider, updates, extra_indices: vec![] }
+    Case { ctx, root, bvs, arrs, cuts, acuts, provider, updates, extra_indices: vec![] }
 }
 
 fn parse_case(c: &Sexp) -> Case {
@@ -156,14 +173,23 @@ fn parse_case(c: &Sexp) -> Case {
         let n = build_expr(&mut ctx, &l[0]);
         cuts.push((n, l[1].bits()));
     }
+    let mut acuts = vec![];
+    for e in c.field("acut").unwrap_or(&[]) {
+        let l = e.list();
+        let n = build_expr(&mut ctx, &l[0]);
+        let dense = l[3].atom() == "dense";
+        let default = l[4].bits();
+        let entries = l[5..].iter().map(|p| (p.list()[0].bits(), p.list()[1].bits())).collect();
+        acuts.push(ArrEnv { sym: n, dense, default, entries });
+    }
     let provider = c.field("provider").map(|p| p[0].num()).unwrap_or(0);
     let updates = c.field("updates").map(|p| p[0].num() == 1).unwrap_or(false);
     let extra_indices = c.field("indices").unwrap_or(&[]).iter().map(|i| i.bits()).collect();
-    Case { ctx, root, bvs, arrs, cuts, provider, updates, extra_indices }
+    Case { ctx, root, bvs, arrs, cuts, acuts, provider, updates, extra_indices }
 }
 
 fn run_case(id: &str, case: Case, rng: &mut Rng, stats: &mut Stats) -> String {
-    let Case { mut ctx, root, bvs, arrs, cuts, provider, updates, extra_indices } = case;
+    let Case { mut ctx, root, bvs, arrs, cuts, acuts, provider, updates, extra_indices } = case;
     let root_ty = root.get_type(&ctx);
     match root_ty {
         Type::BV(w) => stats.bump("root_width", &format!("{w}")),
@@ -209,6 +235,18 @@ fn run_case(id: &str, case: Case, rng: &mut Rng, stats: &mut Stats) -> String {
         cut.push_str(&format!(" ({} {})", dump_expr(&ctx, *n), bv_tok(v)));
         store.define_bv(*n, v);
         bv_pairs.push((*n, v.clone()));
+    }
+    let mut acut = String::new();
+    for a in acuts.iter() {
+        let t = a.sym.get_array_type(&ctx).unwrap();
+        let mut val = if a.dense { ArrayValue::new_dense(t.index_width, &a.default) } else { ArrayValue::new_sparse(t.index_width, &a.default) };
+        let mut txt = format!("{} {} {} {} {}", dump_expr(&ctx, a.sym), t.index_width, t.data_width, if a.dense { "dense" } else { "sparse" }, bv_tok(&a.default));
+        for (i, v) in a.entries.iter() {
+            val.store(i, v);
+            txt.push_str(&format!(" ({} {})", bv_tok(i), bv_tok(v)));
+        }
+        acut.push_str(&format!(" ({txt})"));
+        store.define_array(a.sym, val);
     }
     // literal values appearing in the expression are interesting array indices
     let mut index_pool: Vec<BitVecValue> = vec![];
@@ -291,7 +329,7 @@ fn run_case(id: &str, case: Case, rng: &mut Rng, stats: &mut Stats) -> String {
     let idx_txt: String = indices.iter().map(|i| format!(" {}", bv_tok(i))).collect();
     stats.bump("tree_size", &format!("{}", (tree_size(&ctx, root, 400) / 10) * 10));
     format!(
-        "(case {id} (expr {}) (bvenv{bvenv}) (arrenv{arrenv}) (cut{cut}) (provider {provider}) (updates {}) (indices{idx_txt}) (impl {impl_txt}) (panicloc {}) (panicmsg {}))",
+        "(case {id} (expr {}) (bvenv{bvenv}) (arrenv{arrenv}) (cut{cut}) (acut{acut}) (provider {provider}) (updates {}) (indices{idx_txt}) (impl {impl_txt}) (panicloc {}) (panicmsg {}))",
         dump_expr(&ctx, root),
         if updates { 1 } else { 0 },
         quote(&panic_loc),
